@@ -20,6 +20,17 @@ The translatable subset (anything else -> untranslatable):
     conditional expressions, `x is None` / `x is not None` (narrowing an Optional[int] to int in the guarded part),
     len(self), len(range(a, b, c)), slice(a, b, c), s.start / s.stop / s.step, s.indices(n) (may raise ValueError),
     tuples.
+  * trace mode (`mode="trace"`): effects on objects are recorded as `Py.Act` (text with `_` / `_b` holes + values), see
+    DESIGN 3A.6; declared vocabularies: `lens` (len(x) of an opaque object), `attrs` (typed attributes / globals, e.g.
+    self._pos, bitstring.options.bytealigned), `bools` (opaque conditions such as `bs is self`), `locals_attr`;
+  * loops: `for x in range(a, b, c)` / `for x in <list of ints>` become a structurally recursive auxiliary definition over
+    the list of values, `while c:` one over a fuel counter (`fuel={k: "<python int expr>"}` for the k-th loop; running out of
+    fuel is an internal error, so an equivalence theorem with a total model also proves the fuel adequate); the loop
+    carries the integer variables its body assigns and the trace; `break` / `continue` are supported, `return` inside a
+    loop is not; `err_trace=True` makes an exception carry the effects recorded before it;
+  * `region="<text>"`: translate only the part of the body from the statement starting with that text (the typed
+    parameters are then the variables live at that point) - used for the arithmetic core behind a type dispatch;
+  * `if c: x = e1 else: x = e2` with integer assignments only is joined into one conditional `let` (no duplication).
 Python `//` and `%` are translated to `Int.fdiv` / `Int.fmod` (floor semantics, what Python computes).
 
 API:  translate_all(repo) -> (lean_text, report) ;  write(gen_dir, text) -> bool (changed)
@@ -83,7 +94,9 @@ TARGETS = [
     dict(file="bitstring/bitstream.py", cls="BitStream", func="overwrite", lean="bs_overwrite", mode="trace",
          pynames=["bs", "pos"], params=[("pos", "optint")], lens={"len(bs)": "len_bs"}, bools={"bs is self": "bs_is_self"},
          attrs={"self._pos": ("self_pos", "int")}),
-    dict(file="bitstring/bitstream.py", cls="BitStream", func="append", lean="bs_append", mode="trace", pynames=["bs"], params=[]),
+    # `self._pos = len(self)` is read AFTER self._append(bs): the length after the append is its own parameter
+    dict(file="bitstring/bitstream.py", cls="BitStream", func="append", lean="bs_append", mode="trace", pynames=["bs"], params=[],
+         post_lens={"len(self)": "self_len_after"}),
     dict(file="bitstring/bitstream.py", cls="BitStream", func="prepend", lean="bs_prepend", mode="trace", pynames=["bs"], params=[]),
     dict(file="bitstring/bits.py", cls="Bits", func="find", lean="find", mode="trace",
          pynames=["bs", "start", "end", "bytealigned"], params=[("start", "optint"), ("end", "optint"), ("bytealigned", "optbool")],
@@ -94,6 +107,24 @@ TARGETS = [
     dict(file="bitstring/bits.py", cls="Bits", func="__add__", lean="add", mode="trace", pynames=["bs"], params=[],
          lens={"len(bs)": "len_bs"}),
     dict(file="bitstring/array_.py", cls="Array", func="pop", lean="array_pop", mode="trace", pynames=["i"], params=[("i", "int")]),
+    # ---- batch 3: loops ----------------------------------------------------------------------------------------------
+    dict(file="bitstring/bits.py", cls="Bits", func="_imul", lean="imul_loop", mode="trace", params=[("n", "int")], fuel={1: "n"}),
+    # BitArray.invert(pos) once pos is an iterable of ints (the part after the None / single-int dispatch)
+    dict(file="bitstring/bitarray_.py", cls="BitArray", func="invert", lean="invert_positions", mode="trace", region="length = len(self)",
+         params=[("pos", "intlist")], err_trace=True),
+    # BitArray.byteswap once the format is a list of byte sizes and the range is validated
+    dict(file="bitstring/bitarray_.py", cls="BitArray", func="byteswap", lean="byteswap_core", mode="trace", region="repeats = 0",
+         params=[("start_v", "int"), ("end_v", "int"), ("bytesizes", "intlist"), ("repeat", "bool")]),
+    # ---- batch 4: exponential-Golomb readers (loops over the bits, try/except IndexError -> ReadError) ------------------
+    dict(file="bitstring/bits.py", cls="Bits", func="_readue", lean="readue", params=[("pos", "int")], ret=("int", "int"),
+         self_bits=True, attrs={"bitstring.options.lsb0": ("opt_lsb0", "bool")}, fuel={1: "2 * len(self) + 2"},
+         calls={"self[_:_]._getuint()": ("Py.uintOfSlice self_bits", ["int", "int"], "int", True)}),
+    dict(file="bitstring/bits.py", cls="Bits", func="_readse", lean="readse", params=[("pos", "int")], ret=("int", "int"),
+         self_bits=True, attrs={"bitstring.options.lsb0": ("opt_lsb0", "bool")}),
+    dict(file="bitstring/bits.py", cls="Bits", func="_readuie", lean="readuie", params=[("pos", "int")], ret=("int", "int"),
+         self_bits=True, attrs={"bitstring.options.lsb0": ("opt_lsb0", "bool")}, fuel={1: "2 * len(self) + 2"}),
+    dict(file="bitstring/bits.py", cls="Bits", func="_readsie", lean="readsie", params=[("pos", "int")], ret=("int", "int"),
+         self_bits=True, attrs={"bitstring.options.lsb0": ("opt_lsb0", "bool")}),
     # Array: len(self) is the number of items, self._dtype.bitlength the item width in bits
     dict(file="bitstring/array_.py", cls="Array", func="insert", lean="array_insert", mode="trace",
          pynames=["i", "x"], params=[("i", "int")], attrs={"self._dtype.bitlength": ("itemsize", "int")}),
@@ -103,13 +134,16 @@ TARGETS = [
 ]
 
 # calls of functions translated earlier in TARGETS: python callee -> (lean name, leading lean args, param types, result types)
-KNOWN_CALLS = {"self._validate_slice": ("validate_slice", ["self_len"], ["optint", "optint"], ["int", "int"])}
+KNOWN_CALLS = {"self._validate_slice": ("validate_slice", ["self_len"], ["optint", "optint"], ["int", "int"], []),
+               "self._readue": ("readue", ["self_bits"], ["int"], ["int", "int"], ["opt_lsb0"]),
+               "self._readuie": ("readuie", ["self_bits"], ["int"], ["int", "int"], ["opt_lsb0"])}
 
 EXC = {"ValueError": ".value", "CreationError": ".value", "InterpretError": ".value", "IndexError": ".index",
        "ReadError": ".read", "TypeError": ".type", "Error": ".bitstring", "ByteAlignError": ".byteAlign",
        "AssertionError": '(.internal "AssertionError")'}
 
-LEAN_T = {"int": "Int", "optint": "Option Int", "bool": "Bool", "optbool": "Option Bool", "slice": "Py.Slice"}
+LEAN_T = {"int": "Int", "optint": "Option Int", "bool": "Bool", "optbool": "Option Bool", "slice": "Py.Slice",
+          "intlist": "List Int", "trace": "List Py.Act"}
 OPT = {"optint": "int", "optbool": "bool"}          # Optional[...] types and what `is not None` narrows them to
 
 
@@ -117,7 +151,17 @@ class Untranslatable(Exception):
     pass
 
 
-LEAN_KEYWORDS = {"end", "at", "from", "in", "do", "then", "else", "fun", "let", "match", "with", "open", "by", "have", "show",
+class _SubEnd(ast.stmt):
+    """synthetic statement: the end of a try body (fall through with the current values of its variables)"""
+    _fields = ()
+
+
+class _LoopNext(ast.stmt):
+    """synthetic statement: go to the next iteration of the innermost loop being translated"""
+    _fields = ()
+
+
+LEAN_KEYWORDS = {"repeat", "end", "at", "from", "in", "do", "then", "else", "fun", "let", "match", "with", "open", "by", "have", "show",
                  "if", "where", "instance", "structure", "def", "theorem", "namespace", "section", "local", "export"}
 
 
@@ -142,11 +186,33 @@ class Tr:
         self.trace = spec.get("mode") == "trace"
         self.dirty = set()          # roots changed AFTER one of their lengths was first read on this path
         self.len_read = set()       # roots one of whose lengths has been read on this path
+        self.changed = set()        # roots that a statement on this path may have changed (read or not)
         self.local_objs = {}        # local names bound in the body -> L1, L2, ... (so that renaming a local is harmless)
         self.local_names = set()    # every name the body binds
+        self.aux = []               # auxiliary Lean definitions (one per loop), emitted before the function
+        self.loops = []             # stack of loops being translated: dict(call=…, state=[keys])
+        self.nloops = 0
+        self.sig_params = ""        # the Lean binders of the function (loops take the same ones)
+        self.hoist_stack = []       # raising sub-expressions of the statement being translated: [(var, term)]
+        self.subs = []              # try bodies being translated: dict(keys=[...])
+        self.sc_depth = 0           # > 0 inside the non-first operand of and / or (no raising sub-expression allowed there)
 
     def key(self, node):
         return ast.unparse(node)
+
+    def hoist(self, term, base="h"):
+        """bind a raising sub-expression before the statement that contains it; returns the bound name"""
+        if self.sc_depth or not self.hoist_stack:
+            raise Untranslatable("raising sub-expression in a short-circuited position")
+        if self.spec.get("err_trace"):
+            raise Untranslatable("raising sub-expression in an err_trace function")
+        v = self.new(base)
+        self.hoist_stack[-1].append((v, term))
+        return v
+
+    def ok(self, term):
+        """`return term` — inside a try body the value is tagged (Sum.inl), the fall-through is Sum.inr"""
+        return f".ok (Sum.inl {term})" if self.subs else f".ok {term}"
 
     def new(self, base):
         self.fresh += 1
@@ -200,10 +266,35 @@ class Tr:
                 return f"(-{a})", "int"
             if isinstance(n.op, ast.Not):
                 return f"(!{self.cond(n.operand, env)})", "bool"
+        if isinstance(n, ast.Subscript) and isinstance(n.value, ast.Name) and n.value.id == "self" and self.spec.get("self_bits") \
+                and not isinstance(n.slice, ast.Slice):
+            i, ti = self.expr(n.slice, env)
+            self.need(ti, "int", n)
+            return self.hoist(f"Py.bitAt self_bits {i}", "bit"), "bool"       # IndexError outside the data
+        if isinstance(n, (ast.Call, ast.Attribute, ast.Subscript)) and self.spec.get("calls"):
+            saved = self.fresh
+            try:
+                text, raw = self.abstract(n, env, raw=True)
+            except Untranslatable:
+                text, raw = None, None
+            if text in self.spec["calls"]:
+                fn, ptypes, rtype, raising = self.spec["calls"][text]
+                if [t for _, t in raw] != ptypes:
+                    raise Untranslatable(f"{ast.unparse(n)}: argument types {[t for _, t in raw]}")
+                term = f"{fn} " + " ".join(a for a, _ in raw)
+                return (self.hoist(term, "c") if raising else f"({term})"), rtype
+            self.fresh = saved
         if isinstance(n, ast.BinOp):
             a, ta = self.expr(n.left, env)
             b, tb = self.expr(n.right, env)
+            if ta == "bool":
+                a, ta = f"(if {a} then (1 : Int) else 0)", "int"          # True + 1 == 2
+            if tb == "bool":
+                b, tb = f"(if {b} then (1 : Int) else 0)", "int"
             self.need(ta, "int", n); self.need(tb, "int", n)
+            if isinstance(n.op, (ast.LShift, ast.RShift)):
+                fn = "Py.shlE" if isinstance(n.op, ast.LShift) else "Py.shrE"   # ValueError for a negative count
+                return self.hoist(f"{fn} {a} {b}", "sh"), "int"
             op = {ast.Add: "+", ast.Sub: "-", ast.Mult: "*"}.get(type(n.op))
             if op:
                 return f"({a} {op} {b})", "int"
@@ -224,14 +315,17 @@ class Tr:
             if isinstance(f, ast.Name) and f.id == "len" and len(n.args) == 1:
                 a = n.args[0]
                 if isinstance(a, ast.Name) and a.id == "self":
-                    if "self" in self.dirty:
+                    if "self" in self.changed:
+                        # the length AFTER the effects recorded so far: a separately declared parameter, or out of the subset
+                        if "len(self)" in self.spec.get("post_lens", {}) and "self" not in self.dirty:
+                            return self.spec["post_lens"]["len(self)"], "int"
                         raise Untranslatable("len(self) read after a statement that may have changed self")
                     self.len_read.add("self")
-                    return "self_len", "int"
+                    return ("(self_bits.length : Int)" if self.spec.get("self_bits") else "self_len"), "int"
                 k = self.key(n)
                 if k in self.spec.get("lens", {}):
                     root = k[4:-1].split(".")[0].split("[")[0]
-                    if root in self.dirty:
+                    if root in self.dirty:          # a declared len(x) means: at its FIRST read (spec comment says which)
                         raise Untranslatable(f"{k} read after a statement that may have changed {root}")
                     self.len_read.add(root)
                     return self.spec["lens"][k], "int"
@@ -243,6 +337,10 @@ class Tr:
             if isinstance(f, ast.Name) and f.id == "slice" and len(n.args) == 3:
                 xs = [self.expr(x, env) for x in n.args]
                 return "(Py.Slice.mk " + " ".join(self.coerce(a, t, "optint") for a, t in xs) + ")", "slice"
+            if isinstance(f, ast.Name) and f.id == "sum" and len(n.args) == 1:
+                a, t = self.expr(n.args[0], env)
+                self.need(t, "intlist", n)
+                return f"(Py.sumI {a})", "int"
             if isinstance(f, ast.Name) and f.id in ("min", "max") and len(n.args) == 2:
                 xs = [self.expr(x, env) for x in n.args]
                 for _, t in xs:
@@ -299,7 +397,13 @@ class Tr:
                     if isinstance(n.op, ast.And) and not nt[1]:     # X is not None and P(X)
                         return f"(match {a} with | none => false | some {v} => {self.cond(tail, e2)})"
             op = "&&" if isinstance(n.op, ast.And) else "||"
-            return f"({self.cond(first, env)} {op} {self.cond(tail, env)})"
+            c1 = self.cond(first, env)
+            self.sc_depth += 1
+            try:
+                c2 = self.cond(tail, env)
+            finally:
+                self.sc_depth -= 1
+            return f"({c1} {op} {c2})"
         if isinstance(n, ast.UnaryOp) and isinstance(n.op, ast.Not):
             return f"(!{self.cond(n.operand, env)})"
         if isinstance(n, ast.Compare):
@@ -335,8 +439,12 @@ class Tr:
                 t = self.join(tx, ty)
                 return f"(match {a} with | none => {self.coerce(x, tx, t)} | some {v} => {self.coerce(y, ty, t)})", t
         c = self.cond(n.test, env)
-        x, tx = self.expr(n.body, env)
-        y, ty = self.expr(n.orelse, env)
+        self.sc_depth += 1
+        try:
+            x, tx = self.expr(n.body, env)
+            y, ty = self.expr(n.orelse, env)
+        finally:
+            self.sc_depth -= 1
         t = self.join(tx, ty)
         return f"(if {c} then {self.coerce(x, tx, t)} else {self.coerce(y, ty, t)})", t
 
@@ -355,7 +463,18 @@ class Tr:
         return ", ".join(env[f"self.{a}"][0] for a in self.state)
 
     def block(self, stmts, env, ind):
-        """Lean term of type Except Err <ret> for the statement list (falls off the end = return None)."""
+        """Lean term of type Except Err <ret> for the statement list; raising sub-expressions of the first statement are
+        bound in front of it."""
+        mine = []
+        self.hoist_stack.append(mine)
+        try:
+            res = self._block1(stmts, env, ind)
+        finally:
+            self.hoist_stack.pop()
+        pad = "  " * ind
+        return "".join(f"{pad}({term}).bind fun {v} =>\n" for v, term in mine) + res
+
+    def _block1(self, stmts, env, ind):
         pad = "  " * ind
         if self.trace:
             r = self.trace_stmt(stmts, env, ind)
@@ -370,6 +489,26 @@ class Tr:
             return self.block(rest, env, ind)                         # docstring
         if isinstance(s, ast.Pass):
             return self.block(rest, env, ind)
+        if isinstance(s, (_LoopNext, ast.Continue)):
+            if not self.loops:
+                raise Untranslatable("continue outside a loop")
+            return f"{pad}{self.loops[-1]['call']} {self.state_tuple(self.loops[-1]['state'], env)}"
+        if isinstance(s, ast.Break):
+            if not self.loops:
+                raise Untranslatable("break outside a loop")
+            return f"{pad}.ok {self.state_tuple(self.loops[-1]['state'], env)}"
+        if isinstance(s, (ast.For, ast.While)):
+            return self.loop(s, rest, env, ind)
+        if isinstance(s, _SubEnd):
+            keys = self.subs[-1]["keys"]
+            for k_ in keys:
+                if k_ not in env or env[k_][1] != "int":
+                    raise Untranslatable(f"try body: {k_} is not an int on every path")
+            return f"{pad}.ok (Sum.inr {self.state_tuple(keys, env) if keys else '()'})"
+        if isinstance(s, ast.Try):
+            return self.try_(s, rest, env, ind)
+        if isinstance(s, ast.Return) and self.loops:
+            raise Untranslatable("return inside a loop")
         if isinstance(s, ast.Return):
             if s.value is None:
                 return self.block([], env, ind)
@@ -381,7 +520,7 @@ class Tr:
                 if isinstance(want, tuple) and len(want) == 3:
                     vs = [self.new("r") for _ in range(3)]
                     comps = ", ".join(self.coerce(v, "int", w) for v, w in zip(vs, want))
-                    return f"{pad}({a}).bind fun ({', '.join(vs)}) =>\n{pad}.ok ({comps})"
+                    return f"{pad}({a}).bind fun ({', '.join(vs)}) =>\n{pad}{self.ok('(' + comps + ')')}"
                 raise Untranslatable("slice.indices returned where another type is declared")
             want = self.spec["ret"]
             if isinstance(want, tuple) and isinstance(s.value, ast.Tuple) and len(s.value.elts) == len(want):
@@ -389,12 +528,12 @@ class Tr:
                 for e, w in zip(s.value.elts, want):
                     a, t = self.expr(e, env)
                     comps.append(self.coerce(a, t, w))
-                return f"{pad}.ok ({', '.join(comps)})"
+                return f"{pad}{self.ok('(' + ', '.join(comps) + ')')}"
             a, t = self.expr(s.value, env)
             term, _ = self.ret_term(a, t, env)
             if self.spec.get("returns_state"):
-                return f"{pad}.ok ({term}, {self.final_state(env)})"
-            return f"{pad}.ok {term}"
+                return f"{pad}{self.ok('(' + term + ', ' + self.final_state(env) + ')')}"
+            return f"{pad}{self.ok(term)}"
         if isinstance(s, ast.Raise):
             exc = s.exc
             if isinstance(exc, ast.Call):
@@ -402,10 +541,10 @@ class Tr:
             name = exc.attr if isinstance(exc, ast.Attribute) else getattr(exc, "id", None)
             if name not in EXC:
                 raise Untranslatable(f"raise {ast.unparse(s.exc) if s.exc else ''}")
-            return f"{pad}.error {EXC[name]}"
+            return f"{pad}{self.err(EXC[name], env)}"
         if isinstance(s, ast.Assert):
             c = self.cond(s.test, env)
-            return f"{pad}if {c} then\n{self.block(rest, env, ind + 1)}\n{pad}else .error {EXC['AssertionError']}"
+            return f"{pad}if {c} then\n{self.block(rest, env, ind + 1)}\n{pad}else {self.err(EXC['AssertionError'], env)}"
         if isinstance(s, ast.AugAssign):
             s = ast.Assign(targets=[s.target], value=ast.BinOp(left=s.target, op=s.op, right=s.value))
         if isinstance(s, ast.AnnAssign) and s.value is not None:
@@ -424,7 +563,7 @@ class Tr:
                     raise Untranslatable("slice.indices unpacked into other than three names")
                 return f"{pad}({a}).bind fun ({', '.join(names)}) =>\n{self.block(rest, e2, ind)}"
             if isinstance(tgt, ast.Tuple) and isinstance(s.value, ast.Call) and self.key(s.value.func) in KNOWN_CALLS:
-                lean, pre, ptypes, rtypes = KNOWN_CALLS[self.key(s.value.func)]
+                lean, pre, ptypes, rtypes, post = KNOWN_CALLS[self.key(s.value.func)]
                 if len(s.value.args) != len(ptypes) or s.value.keywords or len(tgt.elts) != len(rtypes):
                     raise Untranslatable(f"call {ast.unparse(s.value)}")
                 args = []
@@ -436,7 +575,10 @@ class Tr:
                     if not isinstance(el, ast.Name):
                         raise Untranslatable("tuple target")
                     v = self.new(el.id); names.append(v); e2[el.id] = (v, rt_)
-                return (f"{pad}({lean} {' '.join(pre + args)}).bind fun ({', '.join(names)}) =>\n"
+                if self.spec.get("err_trace"):
+                    return (f"{pad}match {lean} {' '.join(pre + args + post)} with\n{pad}| .error e_ => .error (e_, {env['__trace'][0]})\n"
+                            f"{pad}| .ok ({', '.join(names)}) =>\n{self.block(rest, e2, ind + 1)}")
+                return (f"{pad}({lean} {' '.join(pre + args + post)}).bind fun ({', '.join(names)}) =>\n"
                         f"{self.block(rest, e2, ind)}")
             if isinstance(tgt, ast.Tuple) and isinstance(s.value, ast.Tuple) and len(tgt.elts) == len(s.value.elts):
                 vals = [self.expr(e, env) for e in s.value.elts]
@@ -464,6 +606,9 @@ class Tr:
                 e2 = dict(env); e2[k] = (v, t)
                 return f"{pad}let {v} : {lean_type(t)} := {a}\n{self.block(rest, e2, ind)}"
         if isinstance(s, ast.If):
+            j = self.join_if(s, rest, env, ind)
+            if j is not None:
+                return j
             nt = self.none_test(s.test)
             if nt:
                 a, t = self.expr(nt[0], env)
@@ -499,11 +644,12 @@ class Tr:
         raise Untranslatable(f"statement {ast.unparse(s).splitlines()[0]}")
 
     # -- trace mode: effects on objects are recorded, not interpreted ---------------------------------------------------
-    def abstract(self, node, env):
+    def abstract(self, node, env, raw=False):
         """Source text of node with every maximal int / Optional[int] sub-expression replaced by `_`, and the Lean terms
         (as Option Int) of the replaced sub-expressions in order of appearance."""
         args = []
         tr = self
+        root_copy = [None]
 
         class A(ast.NodeTransformer):
             def visit_Name(self, n):
@@ -516,6 +662,8 @@ class Tr:
                 return n
 
             def visit(self, n):
+                if raw and n is root_copy[0]:
+                    return self.generic_visit(n)        # the vocabulary expression itself is not a hole
                 if isinstance(getattr(n, "ctx", None), (ast.Store, ast.Del)) and not isinstance(n, ast.Name):
                     # an assignment / deletion target is an effect, not a value: keep its text, abstract only inside it
                     return self.generic_visit(n)
@@ -525,6 +673,11 @@ class Tr:
                         try:
                             fresh0 = tr.fresh
                             a, t = tr.expr(n, env)
+                            if raw and t in ("int", "optint", "bool"):
+                                if isinstance(n, ast.Name) and n.id == "self":
+                                    raise Untranslatable("self")
+                                args.append((a, t))
+                                return ast.copy_location(ast.Name(id="_", ctx=ast.Load()), n)
                             if t in ("int", "optint"):
                                 args.append(tr.coerce(a, t, "optint"))
                                 return ast.copy_location(ast.Name(id="_", ctx=ast.Load()), n)
@@ -541,7 +694,8 @@ class Tr:
                 return self.generic_visit(n)
 
         import copy
-        new = A().visit(copy.deepcopy(node))
+        root_copy = [copy.deepcopy(node)]
+        new = A().visit(root_copy[0])
         ast.fix_missing_locations(new)
         return ast.unparse(new), args
 
@@ -573,10 +727,14 @@ class Tr:
             return n.id if isinstance(n, ast.Name) else None
         if isinstance(s, ast.Expr) and isinstance(s.value, ast.Call) and isinstance(s.value.func, ast.Attribute):
             r = root(s.value.func.value)
+            if r:
+                self.changed.add(r)
             if r and r in self.len_read:
                 self.dirty.add(r)
         for t in getattr(s, "targets", []) + ([s.target] if hasattr(s, "target") else []):
             r = root(t)
+            if r:
+                self.changed.add(r)
             if r and r in self.len_read:
                 self.dirty.add(r)
 
@@ -584,8 +742,14 @@ class Tr:
         """Trace-mode handling of the statement list; None = let the ordinary translation handle the first statement."""
         pad = "  " * ind
         if not stmts:
+            if self.loops:
+                raise Untranslatable("internal: loop body without continuation")
             return f"{pad}.ok ({env['__trace'][0]}{self.final_attrs(env)})"
         s, rest = stmts[0], stmts[1:]
+        if isinstance(s, (_LoopNext, ast.Continue, ast.Break, ast.For, ast.While)):
+            return None
+        if isinstance(s, ast.Return) and self.loops:
+            raise Untranslatable("return inside a loop")
         if isinstance(s, ast.Return):
             fin = self.final_attrs(env)
             if s.value is None:
@@ -639,14 +803,251 @@ class Tr:
             return line + self.block(rest, e2, ind)
         raise Untranslatable(f"statement {ast.unparse(s).splitlines()[0]}")
 
+    def try_(self, s, rest, env, ind):
+        """`try: BODY except E1: raise F1(...) [except E2: raise F2(...)]`: BODY is translated on its own (a `return`
+        inside it is Sum.inl, falling through is Sum.inr with the variables it assigned), exceptions of class Ei raised
+        inside BODY are re-raised as Fi, then the rest of the function continues."""
+        pad = "  " * ind
+        if s.orelse or s.finalbody or self.trace:
+            raise Untranslatable("try with else/finally, or in trace mode")
+        remap = []
+        for h in s.handlers:
+            if h.name or len(h.body) != 1 or not isinstance(h.body[0], ast.Raise) or h.type is None:
+                raise Untranslatable("except clause that is not a plain re-raise")
+            def cls(e):
+                if isinstance(e, ast.Call):
+                    e = e.func
+                return e.attr if isinstance(e, ast.Attribute) else getattr(e, "id", None)
+            a, b = cls(h.type), cls(h.body[0].exc)
+            if a not in EXC or b not in EXC:
+                raise Untranslatable(f"except {a}: raise {b}")
+            remap.append((EXC[a], EXC[b]))
+        keys = []
+        for n in ast.walk(ast.Module(body=s.body, type_ignores=[])):
+            if isinstance(n, ast.Name) and isinstance(n.ctx, ast.Store) and n.id not in keys:
+                keys.append(n.id)
+        self.subs.append({"keys": keys})
+        saved_loops, self.loops = self.loops, []
+        try:
+            body = self.block(list(s.body) + [_SubEnd()], env, ind + 1)
+        finally:
+            self.subs.pop()
+            self.loops = saved_loops
+        outs = [self.new(k_) for k_ in keys]
+        e2 = dict(env)
+        for k_, v in zip(keys, outs):
+            e2[k_] = (v, "int")
+        opat = ("(" + ", ".join(outs) + ")" if len(outs) != 1 else outs[0]) if outs else "()"
+        sty = " × ".join("Int" for _ in keys) if keys else "Unit"
+        f = "fun e => " + "".join(f"if e = {a} then {b} else " for a, b in remap) + "e"
+        r = self.new("r")
+        if isinstance(s.body[-1], ast.Return):
+            # the body cannot fall through (its last statement returns): the Sum.inr arm is dead
+            tail = f"{pad}  .error (.internal \"unreachable\")"
+        else:
+            tail = self.block(rest, e2, ind + 1)
+        return (f"{pad}match Py.remapErr ({f}) ((\n{body}) : Except Err (Sum ({self.rt_lean}) ({sty}))) with\n"
+                f"{pad}| .error e => .error e\n"
+                f"{pad}| .ok (Sum.inl {r}) => {self.ok(r)}\n{pad}| .ok (Sum.inr {opat}) =>\n{tail}")
+
+    def join_if(self, s, rest, env, ind):
+        """`if c: x = e1 [; y = …] else: x = e2 …` where both branches only assign integers to names: one `let` of a tuple
+        of conditional values instead of duplicating the rest of the function in both branches.  None = not that shape."""
+        def simple(body):
+            for st in body:
+                if isinstance(st, ast.Assign) and len(st.targets) == 1 and isinstance(st.targets[0], ast.Name):
+                    continue
+                if isinstance(st, ast.AugAssign) and isinstance(st.target, ast.Name):
+                    continue
+                return False
+            return True
+        if not (simple(s.body) and simple(s.orelse)) or self.none_test(s.test):
+            return None
+        if isinstance(s.test, ast.BoolOp) and any(self.none_test(v) for v in s.test.values):
+            return None
+        saved = self.fresh
+        try:
+            c = self.cond(s.test, env)
+            names = []
+            for st in list(s.body) + list(s.orelse):
+                nm = (st.targets[0] if isinstance(st, ast.Assign) else st.target).id
+                if nm not in names:
+                    names.append(nm)
+
+            def branch_term(body):
+                e, lets = dict(env), []
+                for st in body:
+                    tgt = st.targets[0] if isinstance(st, ast.Assign) else st.target
+                    val = st.value if isinstance(st, ast.Assign) else ast.BinOp(left=st.target, op=st.op, right=st.value)
+                    a, t = self.expr(val, e)
+                    if t != "int":
+                        raise Untranslatable("join: non-int")
+                    v = self.new(tgt.id)
+                    lets.append(f"let {v} : Int := {a}; ")
+                    e[tgt.id] = (v, "int")
+                outs = []
+                for nm in names:
+                    if nm not in e or e[nm][1] != "int":
+                        raise Untranslatable("join: variable not bound on one path")
+                    outs.append(e[nm][0])
+                tup = "(" + ", ".join(outs) + ")" if len(outs) != 1 else outs[0]
+                return "(" + "".join(lets) + tup + ")"
+            tb, te = branch_term(s.body), branch_term(s.orelse)
+        except Untranslatable:
+            self.fresh = saved
+            return None
+        pad = "  " * ind
+        outs = [self.new(nm) for nm in names]
+        e2 = dict(env)
+        for nm, v in zip(names, outs):
+            e2[nm] = (v, "int")
+        pat = "(" + ", ".join(outs) + ")" if len(outs) != 1 else outs[0]
+        ty = " × ".join("Int" for _ in outs)
+        return f"{pad}let {pat} : {ty} := if {c} then {tb} else {te}\n{self.block(rest, e2, ind)}"
+
+    def err(self, code, env):
+        """the Lean error term: with `err_trace` the effects recorded so far travel with the exception"""
+        if self.spec.get("err_trace"):
+            return f".error ({code}, {env['__trace'][0]})"
+        return f".error {code}"
+
+    def errtype(self):
+        return "(Err × List Py.Act)" if self.spec.get("err_trace") else "Err"
+
+    # -- loops ------------------------------------------------------------------------------------------------------
+    def state_tuple(self, keys, env):
+        vals = [env[k][0] for k in keys]
+        return "(" + ", ".join(vals) + ")" if len(vals) != 1 else vals[0]
+
+    def loop(self, s, rest, env, ind):
+        """`for x in range(a, b, c)` / `for x in <int list>` / `while cond` (fuel from spec['fuel']): an auxiliary recursive
+        definition over the list of values (resp. the fuel) carrying the variables the body assigns (and the trace)."""
+        pad = "  " * ind
+        if s.orelse:
+            raise Untranslatable("loop with an else clause")
+        self.nloops += 1
+        k = self.nloops
+        name = f"{self.spec['lean']}.loop{k}"
+        # loop-carried state: names assigned in the body that are bound before the loop (+ declared attrs) + the trace
+        assigned = []
+        for n in ast.walk(ast.Module(body=s.body, type_ignores=[])):
+            tg = None
+            if isinstance(n, (ast.Name, ast.Attribute)) and isinstance(getattr(n, "ctx", None), ast.Store):
+                tg = self.key(n)
+            if tg and tg in env and env[tg][1] in ("int", "optint", "bool", "optbool") and tg not in assigned:
+                assigned.append(tg)
+        if isinstance(s, ast.For) and isinstance(s.target, ast.Name) and s.target.id in assigned:
+            assigned.remove(s.target.id)
+        for a_ in assigned:
+            if env[a_][1] != "int":
+                raise Untranslatable(f"loop-carried variable {a_} is not an int")
+        state = list(assigned) + (["__trace"] if self.trace else [])
+        if not state:
+            raise Untranslatable("loop without state")
+        st_types = [("List Py.Act" if k_ == "__trace" else "Int") for k_ in state]
+        st_type = " × ".join(st_types)
+        # free variables: the function's own binders + every local identifier in scope (same names inside the loop def)
+        locals_ = []
+        for key_, (term, t) in env.items():
+            if key_ in state or t in ("none",) or not term.replace("_", "").replace(".", "").isalnum():
+                continue
+            if term in [x[0] for x in locals_] or f"({term} :" in self.sig_params:
+                continue
+            if t in LEAN_T:
+                locals_.append((term, LEAN_T[t]))
+        binders = self.sig_params + "".join(f" ({a} : {t})" for a, t in locals_)
+        args = " ".join([b.split(" : ")[0].lstrip("(") for b in self.sig_params.split(") (") if b] + [a for a, _ in locals_])
+        args = args.replace("(", "").replace(")", "")
+        # pattern variables for the state
+        pat_vars = [self.new("s" if k_ != "__trace" else "tr") for k_ in state]
+        pat = "(" + ", ".join(pat_vars) + ")" if len(pat_vars) != 1 else pat_vars[0]
+        e_in = dict(env)
+        for k_, v in zip(state, pat_vars):
+            e_in[k_] = (v, "trace" if k_ == "__trace" else "int")
+        saved = set(self.dirty), set(self.len_read)
+        if isinstance(s, ast.For):
+            if not isinstance(s.target, ast.Name):
+                raise Untranslatable("loop target")
+            it = s.iter
+            if isinstance(it, ast.Call) and getattr(it.func, "id", None) == "range" and 1 <= len(it.args) <= 3:
+                xs = [self.expr(a, env) for a in it.args]
+                for _, t in xs:
+                    self.need(t, "int", it)
+                a3 = [x[0] for x in xs]
+                if len(a3) == 1:
+                    a3 = ["(0 : Int)", a3[0], "(1 : Int)"]
+                elif len(a3) == 2:
+                    a3 = a3 + ["(1 : Int)"]
+                iter_term, raising = f"Py.rangeE {a3[0]} {a3[1]} {a3[2]}", True
+            else:
+                a, t = self.expr(it, env)
+                self.need(t, "intlist", it)
+                iter_term, raising = a, False
+            x, xs_ = self.new(s.target.id), self.new("rest")
+            e_in[s.target.id] = (x, "int")
+            self.loops.append({"call": f"{name} {args} {xs_}", "state": state})
+            try:
+                body = self.block(list(s.body) + [_LoopNext()], e_in, 2)
+            finally:
+                self.loops.pop()
+                self.dirty, self.len_read = saved
+            self.aux.append(f"def {name} {binders} : List Int → ({st_type}) → Except {self.errtype()} ({st_type})\n"
+                            f"  | [], st => .ok st\n  | {x} :: {xs_}, {pat} =>\n{body}\n")
+            call = f"{name} {args}"
+            init = self.state_tuple(state, env)
+            outs = [self.new(k_.replace(".", "_") if k_ != "__trace" else "tr") for k_ in state]
+            e_out = dict(env)
+            for k_, v in zip(state, outs):
+                e_out[k_] = (v, "trace" if k_ == "__trace" else "int")
+            opat = "(" + ", ".join(outs) + ")" if len(outs) != 1 else outs[0]
+            if raising:
+                lv = self.new("it")
+                if self.spec.get("err_trace"):
+                    return (f"{pad}match {iter_term} with\n{pad}| .error e_ => .error (e_, {env['__trace'][0]})\n{pad}| .ok {lv} =>\n"
+                            f"{pad}  ({call} {lv} {init}).bind fun {opat} =>\n{self.block(rest, e_out, ind + 1)}")
+                return (f"{pad}({iter_term}).bind fun {lv} =>\n{pad}({call} {lv} {init}).bind fun {opat} =>\n"
+                        f"{self.block(rest, e_out, ind)}")
+            return f"{pad}({call} {iter_term} {init}).bind fun {opat} =>\n{self.block(rest, e_out, ind)}"
+        # while
+        fuel_src = (self.spec.get("fuel") or {}).get(k)
+        if fuel_src is None:
+            raise Untranslatable(f"while loop {k} without a declared fuel expression")
+        fa, ft = self.expr(ast.parse(fuel_src, mode="eval").body, env)
+        self.need(ft, "int", s)
+        fv = self.new("fuel")
+        ch = []
+        self.hoist_stack.append(ch)
+        try:
+            cond = self.cond(s.test, e_in)
+        finally:
+            self.hoist_stack.pop()
+        cond_pre = "".join(f"    ({term}).bind fun {v} =>\n" for v, term in ch)
+        self.loops.append({"call": f"{name} {args} {fv}", "state": state})
+        try:
+            body = self.block(list(s.body) + [_LoopNext()], e_in, 3)
+        finally:
+            self.loops.pop()
+            self.dirty, self.len_read = saved
+        fuel_err = '(.internal "fuel", [])' if self.spec.get("err_trace") else '(.internal "fuel")'
+        self.aux.append(f"def {name} {binders} : Nat → ({st_type}) → Except {self.errtype()} ({st_type})\n"
+                        f"  | 0, _ => .error {fuel_err}\n  | {fv} + 1, {pat} =>\n{cond_pre}    if {cond} then\n{body}\n"
+                        f"    else .ok {pat}\n")
+        init = self.state_tuple(state, env)
+        outs = [self.new(k_.replace(".", "_") if k_ != "__trace" else "tr") for k_ in state]
+        e_out = dict(env)
+        for k_, v in zip(state, outs):
+            e_out[k_] = (v, "trace" if k_ == "__trace" else "int")
+        opat = "(" + ", ".join(outs) + ")" if len(outs) != 1 else outs[0]
+        return (f"{pad}({name} {args} (({fa}).toNat + 1) {init}).bind fun {opat} =>\n{self.block(rest, e_out, ind)}")
+
     def branch(self, body, rest, env, ind):
         """body followed by rest.  Assignments made in the body must be visible in rest: the block translation threads
         the environment, so simply concatenate (this duplicates `rest` in both branches)."""
-        saved = set(self.dirty), set(self.len_read)
+        saved = set(self.dirty), set(self.len_read), set(self.changed)
         try:
             return self.block(list(body) + list(rest), env, ind)
         finally:
-            self.dirty, self.len_read = saved
+            self.dirty, self.len_read, self.changed = saved
 
     def is_indices_call(self, c):
         return isinstance(c.func, ast.Attribute) and c.func.attr == "indices" and len(c.args) == 1
@@ -696,7 +1097,9 @@ def check_pos_property(tree, cls):
 
 def signature(spec):
     ps = []
-    if spec.get("cls") and not spec.get("no_self_len"):
+    if spec.get("self_bits"):
+        ps.append("(self_bits : List Bool)")
+    if spec.get("cls") and not spec.get("no_self_len") and not spec.get("self_bits"):
         ps.append("(self_len : Int)")
         for a in spec.get("state", []):
             ps.append(f"(self{a} : Int)")
@@ -705,6 +1108,8 @@ def signature(spec):
     for k, (v, t) in spec.get("attrs", {}).items():
         ps.append(f"({v} : {lean_type(t)})")
     for k, v in spec.get("lens", {}).items():
+        ps.append(f"({v} : Int)")
+    for k, v in spec.get("post_lens", {}).items():
         ps.append(f"({v} : Int)")
     for k, v in spec.get("bools", {}).items():
         ps.append(f"({v} : Bool)")
@@ -726,14 +1131,16 @@ def translate_one(repo, spec):
     fn = find_func(ast.parse(src), spec.get("cls"), spec["func"])
     sig, rt = signature(spec)
     qual = (spec["cls"] + "." if spec.get("cls") else "") + spec["func"]
-    head = f"def {spec['lean']} {sig} : Except Err ({rt}) :="
+    et = "(Err × List Py.Act)" if spec.get("err_trace") else "Err"
+    head = f"def {spec['lean']} {sig} : Except {et} ({rt}) :="
     if fn is None:
         return head, None, f"{qual}: not found in {spec['file']}", None
     digest = hashlib.sha256(ast.dump(fn).encode()).hexdigest()[:16]
     try:
         # the declared parameters must be the function's own
         names = [a.arg for a in fn.args.posonlyargs + fn.args.args if a.arg not in ("self", "cls")]
-        if names != spec.get("pynames", [p for p, _ in spec["params"]]) or fn.args.vararg or fn.args.kwarg or fn.args.kwonlyargs:
+        if not spec.get("region") and (names != spec.get("pynames", [p for p, _ in spec["params"]]) or fn.args.vararg or fn.args.kwarg
+                                       or fn.args.kwonlyargs):
             raise Untranslatable(f"parameter list is now ({', '.join(names)})")
         tr = Tr(spec)
         for node in ast.walk(fn):
@@ -748,9 +1155,23 @@ def translate_one(repo, spec):
         if spec.get("uses_pos_property"):
             check_pos_property(ast.parse(src), spec["cls"])
             env["self.pos"] = env["self._pos"]
+        tr.sig_params = sig
+        tr.rt_lean = rt
+        stmts = list(fn.body)
+        if spec.get("region"):
+            # translate only the statements from the first one whose source text starts with the marker
+            marker = spec["region"]
+            idx = [i for i, st in enumerate(stmts) if ast.unparse(st).startswith(marker)]
+            if len(idx) != 1:
+                raise Untranslatable(f"region marker {marker!r} found {len(idx)} times")
+            stmts = stmts[idx[0]:]
+        pre = ""
         if spec.get("mode") == "trace":
-            env["__trace"] = ("([] : List Py.Act)", "trace")
-        body = tr.block(fn.body, env, 1)
+            env["__trace"] = ("tr_0", "trace")
+            pre = "  let tr_0 : List Py.Act := []\n"
+        body = pre + tr.block(stmts, env, 1)
+        if tr.aux:
+            head = "\n".join(tr.aux) + "\n" + head
         return head, body, None, digest
     except Untranslatable as e:
         return head, None, f"{qual}: {e}", digest
@@ -773,7 +1194,8 @@ def translate_all(repo):
         out.append(f"/-- `{qual}` ({spec['file']}). -/")
         if body is None:
             sig, rt = signature(spec)
-            out.append(f"opaque Untranslatable.{spec['lean']} : Except Err ({rt})")
+            et = "(Err × List Py.Act)" if spec.get("err_trace") else "Err"
+            out.append(f"opaque Untranslatable.{spec['lean']} : Except {et} ({rt})")
             out.append(head)
             out.append(f"  Untranslatable.{spec['lean']}")
         else:
